@@ -120,6 +120,9 @@ def op_struct(c):
     first = cls(name=c['n'])
     first.contents.append('int only_in_the_first;')
     assert 'only_in_the_first' not in str(cls(name=c['n'])), 'structs without contents share one contents object'
+    assert 'only_in_the_first' in str(first), 'what is appended through the contents accessor of a struct is not rendered'
+    s.contents.append('int appended_later;')
+    assert 'appended_later' in str(s) and tb.lines[-1] == 'int appended_later;', 'the contents accessor of a struct does not hand out the block it renders'
     return r
 
 
